@@ -523,6 +523,14 @@ def standard_check(mod, tier, seed):
         else:
             lines_i = lines[i]
         found = not hasattr(mod, "oracle_lines") and getattr(mod, "MODEL_IS_SPEC", False)
+        # a panic / crash / hang of the implementation where the proved model returns normally is itself
+        # a concrete failing input (every property requires a normal return on its domain)
+        crashed = [j for j in unexplained if (impl_out[j] or "").startswith(("PANIC", "CRASH", "BOTHNIL", "BOTHSET"))
+                   and not (model_out[j] or "").startswith(("PANIC", "CRASH"))]
+        if crashed:
+            i = crashed[0]
+            lines_i = lines[i]
+            found = True
         rep.violation({"kind": "correspondence model-vs-implementation no longer checks",
                        "correspondence": "%s differential run (%d of %d cases differ)" % (mod.PID, len(unexplained), len(lines)),
                        "case": lines_i, "impl_output": impl_out[i], "model_output": model_out[i],
